@@ -274,6 +274,22 @@ pub fn check_search(ctx: &Ctx, z: &MZone, zr: TimeZoneRef<'_>, f: &Fields, sweep
         }
     };
 
+    // a valid result whose instant lies outside the supported range cannot be constructed: the search must refuse (C14)
+    let out_of_range = exp.iter().any(|e| matches!(e, Found::Normal { u, .. } if *u < MIN_UNIX_TIME || *u > MAX_UNIX_TIME));
+    if out_of_range {
+        let mut b: [Option<FoundDateTimeKind>; 12] = [None; 12];
+        let r = DateTime::find_n(&mut b, f.y, f.mo, f.d, f.h, f.mi, f.s, f.ns, zr).map(|l| l.data().to_vec());
+        match r {
+            Err(TzError::OutOfRange) => {}
+            other => {
+                let got = json!(format!("{:?}", other.as_ref().map(|v| v.iter().flatten().map(kind_json).collect::<Vec<_>>())));
+                report(Prop::C14, json!({"refused": "OutOfRange", "because": "a valid instant of this reading lies outside the supported range", "model": exp.iter().map(found_json).collect::<Vec<_>>()}), got.clone(), tl);
+                report(Prop::C05, json!({"refused": "OutOfRange", "model": exp.iter().map(found_json).collect::<Vec<_>>()}), got, tl);
+            }
+        }
+        return;
+    }
+
     // ---- run the implementation (allocation-free entry point). The buffer is reused across all searches of this thread and
     // never cleared (the documented way of using find_n): stale entries of earlier searches stay behind the written prefix.
     let mut buf: [Option<FoundDateTimeKind>; 12] = REUSED_BUF.with(|b| b.get());
@@ -789,6 +805,58 @@ fn sweep_leap_extreme(ctx: &Ctx) -> Tally {
     t
 }
 
+/// both ends of the supported range, with and without leap seconds (instant scale vs leap-count scale at the limit)
+fn sweep_range_ends(ctx: &Ctx) -> Tally {
+    let cyc = ctx.cyc;
+    let leap_tables: Vec<Vec<(i64, i32)>> = vec![vec![], vec![(78_796_799, -1), (94_694_398, -2)], vec![(78_796_800, 1), (94_694_401, 2)], vec![(78_796_800, 1), (94_694_401, 0), (126_230_400, -1)]];
+    let mut tl = Tally::default();
+    for leaps in &leap_tables {
+        for off in [-18000i32, 0, 3600, 50400, -50400] {
+            for shape in 0..3 {
+                let types = vec![MType::new(-17762, false, Some("LMT")), MType::new(off, false, Some("EST"))];
+                let (trans, rule) = match shape {
+                    0 => (vec![(-2_717_650_800i64, 1usize), (i64::MAX, 1)], None),
+                    1 => (vec![(-2_717_650_800i64, 1usize)], Some(MRule::Fixed(types[1]))),
+                    _ => (vec![(i64::MIN + 1, 1usize), (-2_717_650_800, 0), (0, 1), (i64::MAX, 0)], None),
+                };
+                let z = MZone { trans, types, leaps: leaps.clone(), rule };
+                let iz = ImplZone::from_model(&z).unwrap();
+                let zr = match iz.zref() {
+                    Ok(r) => r,
+                    Err(_) => {
+                        tl.refused_zones += 1;
+                        continue;
+                    }
+                };
+                tl.zones += 1;
+                for lim in [MIN_UNIX_TIME, MAX_UNIX_TIME] {
+                    for o in [off as i64, -17762] {
+                        for d in -6i64..=6 {
+                            let l = lim + o + d;
+                            if let Some(f) = Fields::of_local(cyc, l, 500) {
+                                let r = guard(|| {
+                                    let mut t2 = Tally::default();
+                                    check_search(ctx, &z, zr, &f, "range_ends", &mut t2);
+                                    if f.s == 59 {
+                                        check_search(ctx, &z, zr, &Fields { s: 60, ..f }, "range_ends", &mut t2);
+                                    }
+                                    t2
+                                });
+                                match r {
+                                    Ok(t2) => tl = tl.clone().merge(t2),
+                                    Err(m) => ctx.rec.violation("range_ends", json!({"kind":"search","zone":zone_json(&z),"fields":f.json()}), json!("no panic"), json!(m)),
+                                }
+                            }
+                        }
+                    }
+                }
+            }
+        }
+    }
+    ctx.rec.sub("range_ends", tl.json());
+    tl
+}
+
 pub fn rule_zone(r: &RuleSpec, line: Arc<Timeline>) -> MZone {
     let (ms, md) = (crate::rule::std_type(r), crate::rule::dst_type(r));
     MZone { trans: vec![], types: vec![ms, md], leaps: vec![], rule: Some(MRule::alt_with_line(*r, ms, md, line)) }
@@ -848,6 +916,30 @@ fn sweep_rule_only(ctx: &Ctx, tabs: &Tables, years: i64, include_noninterleaving
                 }
                 let y0 = 2001 + ((i * 7 + j * 3) as i64 % 10) * 28;
                 let mut ls = vec![];
+                // pairwise alternation: for every ordered pair of zones of this day pair, search a, b, a at corresponding readings
+                // of one year (single-entry caches keyed by a subset of the rule would serve b with a's data)
+                {
+                    let y = y0 + 1;
+                    let per_zone: Vec<Vec<i64>> = zs
+                        .iter()
+                        .map(|(r, line, _, _)| vec![line.sy(y) + r.std_off, line.sy(y) + (r.std_off + r.dst_off) / 2, line.ey(y) + r.dst_off - 1, line.ey(y) + (r.std_off + r.dst_off) / 2, (line.sy(y) + line.ey(y)) / 2 + r.std_off])
+                        .collect();
+                    for a in 0..zs.len() {
+                        for b in 0..zs.len() {
+                            if a == b {
+                                continue;
+                            }
+                            for k in 0..per_zone[a].len() {
+                                for &zi in &[a, b, a] {
+                                    let (_, _, z, iz) = &zs[zi];
+                                    if let Some(f) = Fields::of_local(ctx.cyc, per_zone[zi][k], 0) {
+                                        check_search(ctx, z, iz.zref().unwrap(), &f, name, &mut tl);
+                                    }
+                                }
+                            }
+                        }
+                    }
+                }
                 for y in y0..y0 + years {
                     for (r, line, z, iz) in &zs {
                         let zr = iz.zref().unwrap();
@@ -1110,6 +1202,8 @@ pub fn run_sweeps(ctx: &Ctx, tabs: &Tables, thorough: bool, light: bool) -> Tall
     total = total.merge(sweep_real_scale(ctx, thorough));
     // 2b. leap seconds x offsets at the ends of the i32 range
     total = total.merge(sweep_leap_extreme(ctx));
+    // 2c. both ends of the supported instant range
+    total = total.merge(sweep_range_ends(ctx));
     // 3. rule only
     total = total.merge(sweep_rule_only(ctx, tabs, if thorough { 120 } else if light { 6 } else { 30 }, false, "rule_only"));
     // 3b. non-interleaving accepted rules (keeps KF2 observable; any other failure mode is a violation)
